@@ -211,6 +211,8 @@ inductive Ev where
   | dropped (seq : Nat)
   /-- a wait ended without an answer -/
   | expired (seq : Nat)
+  /-- `_local_objects.add(key, obj)` in `_box`: the object is (or stays) lent to the peer under this id pack -/
+  | lent (key : Val) (o : Nat)
   /-- `_cleanup` -/
   | cleaned
   /-- an exception left `serve()` at the top level: `serve_all` closes the connection -/
@@ -483,7 +485,8 @@ def tableGet (key : Val) : M Nat := fun _ st fut =>
   | none => ⟨.error (Exc.ofErr .keyError), st, fut⟩
 
 /-- `self._local_objects.add(key, obj)` -/
-def addSlot (key : Val) (o : Nat) : M Unit := modify (fun st => { st with table := tableAdd st.table key o })
+def addSlot (key : Val) (o : Nat) : M Unit :=
+  modify (fun st => { st with table := tableAdd st.table key o, log := st.log ++ [.lent key o] })
 
 /-- write one frame: fails with `EOFError` on a closed connection -/
 def sendFrame (e : Ev) : M Unit := fun _ st fut =>
@@ -1208,9 +1211,11 @@ def modelledTouches : List (String × List String) :=
    ("_handle_str", ["str"])]
 
 /-- everything `netref.class_factory` does, helpers followed (compare `Gen.Handlers.classFactoryCalls`): the name of a
-proxied class is resolved with `sys.modules.get` and one `getattr` — `classLookup` above; nothing in this list imports -/
+proxied class is resolved with `sys.modules.get` and then READ OUT of the module's namespace (`vars(module).get`) —
+`classLookup` above.  There is no `getattr` on the module (it would run a PEP 562 module `__getattr__` with the peer's
+name) and nothing in this list imports. -/
 def modelledClassFactoryCalls : List String :=
-  ["<call>", "NetrefClass", "_make_method", "_normalized_builtin_types.get", "getattr", "hasattr",
-   "len", "str", "sys.modules.get", "type"]
+  ["<call>", "NetrefClass", "_make_method", "_normalized_builtin_types.get", "hasattr", "isinstance",
+   "len", "str", "sys.modules.get", "type", "vars"]
 
 end Rpyc.Handlers
